@@ -86,6 +86,7 @@ class Work:
         self.keep = keep
         self.events = []      # C12-style generation events
         self.fresh_pkgs = []  # go import paths of usable fresh packages
+        self.init_failures = {}  # fresh packages whose init() panics
         self.sets = []
 
     def __enter__(self):
@@ -256,15 +257,44 @@ class Work:
             pk += self.compile_fresh()
         self.write_imports(pk)
         bins = {}
-        for v in variants:
-            out = self.p('zzbin', 'vh-' + v)
-            extra = []
-            if v == 'race':
-                extra = ['-race']
-            elif v == 'cover':
-                extra = ['-cover', '-coverpkg=' + ','.join(pk)]
-            self.gobuild(out, './zzverif/vh', extra)
-            bins[v] = out
+        self.init_failures = {}
+        for attempt in range(2):
+            for v in variants:
+                out = self.p('zzbin', 'vh-' + v)
+                extra = []
+                if v == 'race':
+                    extra = ['-race']
+                elif v == 'cover':
+                    extra = ['-cover', '-coverpkg=' + ','.join(pk)]
+                self.gobuild(out, './zzverif/vh', extra)
+                bins[v] = out
+            # every package must at least initialise (descriptor registration happens in init)
+            b0 = bins[variants[0]]
+            q = subprocess.run([b0, '-engine', 'listtypes'], cwd=self.dir, env=GOENV, stdout=subprocess.PIPE, stderr=subprocess.PIPE, timeout=300)
+            if q.returncode == 0 or attempt == 1:
+                if q.returncode != 0:
+                    raise Broken('harness binary does not start even without the failing packages:\n' + q.stderr.decode('utf-8', 'replace')[-2000:])
+                break
+            log('harness binary panics at start-up; isolating the package whose init fails')
+            fresh_pk = [x for x in pk if '/zzgen/' in x]
+
+            def probe(ip):
+                d = self.p('zzverif', 'initprobe_' + re.sub(r'\W', '_', ip))
+                os.makedirs(d, exist_ok=True)
+                open(os.path.join(d, 'main.go'), 'w').write('package main\n\nimport _ "%s"\n\nfunc main() {}\n' % ip)
+                r = subprocess.run(['go', 'run', '-trimpath', '-tags', 'verif', './' + os.path.relpath(d, self.dir)], cwd=self.dir, env=GOENV, stdout=subprocess.PIPE, stderr=subprocess.STDOUT, timeout=600)
+                shutil.rmtree(d, ignore_errors=True)
+                return ip, r.returncode, r.stdout.decode('utf-8', 'replace')[-2500:]
+            with cf.ThreadPoolExecutor(max_workers=NCPU) as ex:
+                for ip, rc, out in ex.map(probe, fresh_pk):
+                    if rc != 0:
+                        self.init_failures[ip] = out
+            if not self.init_failures:
+                raise Broken('harness binary panics at start-up but every fresh package initialises alone:\n' + q.stderr.decode('utf-8', 'replace')[-2000:])
+            # a package importing a failing one fails too; drop them all and rebuild
+            pk = [x for x in pk if x not in self.init_failures]
+            self.fresh_pkgs = [x for x in self.fresh_pkgs if x not in self.init_failures]
+            self.write_imports(pk)
         return bins
 
     # -- engines ---------------------------------------------------------------
@@ -375,6 +405,18 @@ def save_replays(prop, violations):
     return paths
 
 
+def add_init_failures(prop, w, merged):
+    """A freshly generated package whose init() panics is a violation of C12 (output does not work)
+    and C19 (descriptor/type registration is incoherent); other properties carry on without it."""
+    for ip, out in (getattr(w, 'init_failures', None) or {}).items():
+        if prop in ('C12', 'C19'):
+            merged['violations'].append(dict(prop=prop, key=('gen' if prop == 'C12' else 'api') + '/package-init-panics', type=ip,
+                                             detail='the generated package %s panics while initialising (registering its descriptors and Go types):\n%s' % (ip, out), replay=dict(engine='init', package=ip)))
+            merged['n_violations'] += 1
+        else:
+            merged['notes'].append('package %s excluded: init() panics' % ip)
+
+
 def finish(prop, tier, seed, t0, merged, rule, assumptions, floor_evals, floor_distinct, extra=None, exhaustive=None):
     """Common epilogue: classify, print lines, evidence, exit status."""
     new, hit, known = classify(prop, merged['violations'])
@@ -470,6 +512,7 @@ def check_engine(prop, tier, seed, repo, keep):
         for eng in cfg['engines']:
             reps += w.run_engine(bins['plain'], eng)
         merged = merge_reports(reps, prop)
+        add_init_failures(prop, w, merged)
         gen_extra = gen_summary(w)
         floors = FLOORS[prop]
         return finish(prop, tier, seed, t0, merged, RULES[prop], ASSUME, floors[0], floors[1], extra=gen_extra)
@@ -795,6 +838,7 @@ def check_gen_total(prop, tier, seed, repo, keep):
                 for x in m['violations'] + [e for e in extra if e.get('prop') == pid]:
                     merged_all['violations'].append(dict(prop='C12', key='gen/behaviour/%s/%s' % (pid, x['key']), type=x.get('type', ''), detail='freshly generated type violates %s: %s' % (pid, x.get('detail', '')), replay=x.get('replay')))
                     merged_all['n_violations'] += 1
+        add_init_failures(prop, w, merged_all)
         pct, unc = plugin_coverage(w, w.p('zzreq'))
         extra = gen_summary(w)
         extra.update(plugin_invocations=nev, template_statement_coverage_percent=pct, uncovered_template_blocks=unc[:200],
